@@ -27,11 +27,11 @@ impl Clone for Mode {
 
 //@ itemx const X86REGISTERS exec_const
 //@ rewrite 1 `const X86REGISTERS: &[X86Register] = &[` => `const X86REGISTERS: &'static [X86Register] ensures X86REGISTERS@ =~= x86_table_spec() { let vf_table: &'static [X86Register] = &[` ## R-exec-const: Verus takes a slice constant only in the block form `exec const N: &'static [T] ensures .. { .. }` (a `const` is implicitly 'static); same literal, same value
-//@ rewrite 1 `] ;` => `]; vf_table }` ## R-exec-const: closes the block
+//@ rewrite 1 `] ;` => `]; vf_table } pub const VF_X86REGISTERS_END: () = ();` ## R-exec-const: closes the block (the unit constant after it only gives tools/rsx.py the `;` it expects at the end of a `const` item)
 //@ end
 //@ itemx const AMD64REGISTERS exec_const
 //@ rewrite 1 `const AMD64REGISTERS: &[X86Register] = &[` => `const AMD64REGISTERS: &'static [X86Register] ensures AMD64REGISTERS@ =~= amd64_table_spec() { let vf_table: &'static [X86Register] = &[` ## R-exec-const: Verus takes a slice constant only in the block form `exec const N: &'static [T] ensures .. { .. }` (a `const` is implicitly 'static); same literal, same value
-//@ rewrite 1 `] ;` => `]; vf_table }` ## R-exec-const: closes the block
+//@ rewrite 1 `] ;` => `]; vf_table } pub const VF_AMD64REGISTERS_END: () = ();` ## R-exec-const: closes the block (the unit constant after it only gives tools/rsx.py the `;` it expects at the end of a `const` item)
 //@ end
 
 /// the register table of a mode, as a mathematical sequence
@@ -297,7 +297,8 @@ impl X86Register {
         assert(expr_wf(Expression::Constant(c)));
         assert(expr_wf(expr) && expr_bits(expr) == self.full_rec().bits);
         assert(expr_wf(Expression::Trun(self.bits, Box::new(expr))));
-        assert forall|env: Env| env_sorted(env) implies #[trigger] eval_spec(Expression::Trun(self.bits, Box::new(expr)), env) == reg_read(*self, env) by {
+        // (the premise on the shift constant keeps a wrong amount from failing HERE: it then fails the named postcondition `value`)
+        assert forall|env: Env| (env_sorted(env) && c.value@ == self.offset) implies #[trigger] eval_spec(Expression::Trun(self.bits, Box::new(expr)), env) == reg_read(*self, env) by {
             lemma_read_high(*self, ef, c, env);
         }
     }
@@ -324,4 +325,243 @@ pub open spec fn rhs_of(e: Expression) -> Expression {
         | Expression::Cmplts(_, r) | Expression::Cmpltu(_, r) => *r,
         _ => e,
     }
+}
+
+// ---- set: the three expression shapes --------------------------------------------------------------------------
+
+pub open spec fn low_src(ef: Expression, cm: Constant, fb: usize, value: Expression) -> Expression {
+    Expression::Or(
+        Box::new(Expression::And(Box::new(ef), Box::new(Expression::Constant(cm)))),
+        Box::new(Expression::Zext(fb, Box::new(value))))
+}
+
+pub open spec fn high_src(ef: Expression, cm: Constant, fb: usize, value: Expression, co: Constant) -> Expression {
+    Expression::Or(
+        Box::new(Expression::And(Box::new(ef), Box::new(Expression::Constant(cm)))),
+        Box::new(Expression::Shl(Box::new(Expression::Zext(fb, Box::new(value))), Box::new(Expression::Constant(co)))))
+}
+
+/// a write to the full register itself
+pub proof fn lemma_write_full(x: X86Register, value: Expression, env: Env)
+    requires x.rec_ok(), x.capstone_reg == x.full_reg, env_sorted(env), expr_wf(value), expr_bits(value) == x.bits,
+    ensures write_ok(x, value, value, env),
+{
+    lemma_eval_wf_val(value, env);
+}
+
+/// 8- / 16-bit register at offset 0:  full' = (full & (2^Fb - 2^b)) | zext(v)
+pub proof fn lemma_write_low(x: X86Register, ef: Expression, cm: Constant, value: Expression, env: Env)
+    requires
+        x.rec_ok(), x.capstone_reg != x.full_reg, x.offset == 0, x.bits < 32, env_sorted(env),
+        expr_wf(value), expr_bits(value) == x.bits,
+        expr_wf(ef), expr_bits(ef) == x.full_rec().bits, eval_spec(ef, env) == reg_read(x.full_rec(), env),
+        cm.wf(), cm.bits == x.full_rec().bits, cm.value@ == pow2(x.full_rec().bits as nat) - pow2(x.bits as nat),
+    ensures write_ok(x, value, low_src(ef, cm, x.full_rec().bits, value), env),
+{
+    let f = x.full_rec();
+    let fb = f.bits as nat;
+    let b = x.bits as nat;
+    lemma_full_rec_ok(x);
+    lemma_eval_wf_val(value, env);
+    let anded = Expression::And(Box::new(ef), Box::new(Expression::Constant(cm)));
+    let zx = Expression::Zext(f.bits, Box::new(value));
+    let src = low_src(ef, cm, f.bits, value);
+    assert(eval_spec(Expression::Constant(cm), env) == EvalR::Val(fb, cm.value@));
+    assert(eval_spec(anded, env) == bin_spec(BinOp::And, eval_spec(ef, env), EvalR::Val(fb, cm.value@)));
+    assert(eval_spec(zx, env) == zext_spec(fb, eval_spec(value, env)));
+    assert(eval_spec(src, env) == bin_spec(BinOp::Or, eval_spec(anded, env), eval_spec(zx, env)));
+    if let EvalR::Val(w, v) = eval_spec(value, env) {
+        if let Some((fw, full)) = env(reg_scalar(f)) {
+            reveal(bv_and); reveal(bv_or); reveal(bv_zext);
+            lemma_extract_low(full, fb);
+            lemma_small_mod(full, pow2(fb));
+            lemma_and_himask(full, b, fb);
+            lemma_pow2_pos(b);
+            lemma_fundamental_div_mod(full as int, pow2(b) as int);
+            let q = full / pow2(b);
+            assert((full - full % pow2(b)) as nat == q * pow2(b)) by (nonlinear_arith)
+                requires full as int == pow2(b) as int * (full as int / pow2(b) as int) + (full % pow2(b)) as int, q as int == full as int / pow2(b) as int, full % pow2(b) <= full;
+            lemma_mod_bound(full as int, pow2(b) as int);
+            lemma_or_disjoint(q, b, v);
+            lemma_extract_low(full, b);
+            lemma2_to64();
+            assert(pow2(0) == 1);
+            assert(extract(full, 0, b) * 1 == extract(full, 0, b));
+            assert(v * 1 == v);
+        }
+    }
+}
+
+/// 32-bit register in 64-bit mode:  full' = zext(v)
+pub proof fn lemma_write_zext(x: X86Register, value: Expression, env: Env)
+    requires
+        x.rec_ok(), x.capstone_reg != x.full_reg, x.offset == 0, x.bits == 32, x.full_rec().bits == 64, env_sorted(env),
+        expr_wf(value), expr_bits(value) == x.bits,
+    ensures write_ok(x, value, Expression::Zext(x.full_rec().bits, Box::new(value)), env),
+{
+    lemma_eval_wf_val(value, env);
+    reveal(bv_zext);
+}
+
+/// 8-bit register at offset o > 0 (ah, bh, ch, dh):  full' = (full & ~(((2^b)-1) << o)) | (zext(v) << o)
+pub proof fn lemma_write_high(x: X86Register, ef: Expression, cm: Constant, value: Expression, co: Constant, env: Env)
+    requires
+        x.rec_ok(), x.capstone_reg != x.full_reg, x.offset != 0, env_sorted(env),
+        expr_wf(value), expr_bits(value) == x.bits,
+        expr_wf(ef), expr_bits(ef) == x.full_rec().bits, eval_spec(ef, env) == reg_read(x.full_rec(), env),
+        cm.wf(), cm.bits == x.full_rec().bits,
+        cm.value@ == pow2(x.full_rec().bits as nat) - 1 - (pow2(x.bits as nat) - 1) * pow2(x.offset as nat),
+        co.wf(), co.bits == x.full_rec().bits, co.value@ == x.offset,
+    ensures write_ok(x, value, high_src(ef, cm, x.full_rec().bits, value, co), env),
+{
+    let f = x.full_rec();
+    let fb = f.bits as nat;
+    let b = x.bits as nat;
+    let o = x.offset as nat;
+    lemma_full_rec_ok(x);
+    lemma_eval_wf_val(value, env);
+    let anded = Expression::And(Box::new(ef), Box::new(Expression::Constant(cm)));
+    let zx = Expression::Zext(f.bits, Box::new(value));
+    let sh = Expression::Shl(Box::new(zx), Box::new(Expression::Constant(co)));
+    let src = high_src(ef, cm, f.bits, value, co);
+    assert(eval_spec(Expression::Constant(cm), env) == EvalR::Val(fb, cm.value@));
+    assert(eval_spec(Expression::Constant(co), env) == EvalR::Val(fb, co.value@));
+    assert(eval_spec(anded, env) == bin_spec(BinOp::And, eval_spec(ef, env), EvalR::Val(fb, cm.value@)));
+    assert(eval_spec(zx, env) == zext_spec(fb, eval_spec(value, env)));
+    assert(eval_spec(sh, env) == bin_spec(BinOp::Shl, eval_spec(zx, env), EvalR::Val(fb, co.value@)));
+    assert(eval_spec(src, env) == bin_spec(BinOp::Or, eval_spec(anded, env), eval_spec(sh, env)));
+    if let EvalR::Val(w, v) = eval_spec(value, env) {
+        if let Some((fw, full)) = env(reg_scalar(f)) {
+            reveal(bv_and); reveal(bv_or); reveal(bv_zext); reveal(bv_shl);
+            lemma_extract_low(full, fb);
+            lemma_small_mod(full, pow2(fb));
+            lemma_and_holemask(full, o, b, fb);
+            let e = extract(full, o, b);
+            let a = (full - e * pow2(o)) as nat;
+            lemma_clear_extract(full, o, b);
+            lemma_or_hole(a, o, b, v);
+            // v << o does not overflow the width
+            lemma_hole_bound(o, b, fb);
+            assert(v * pow2(o) < pow2(fb)) by (nonlinear_arith)
+                requires v < pow2(b), (pow2(b) - 1) * pow2(o) <= pow2(fb) - 1, pow2(o) >= 1;
+            lemma_small_mod(v * pow2(o), pow2(fb));
+        }
+    }
+}
+
+impl X86Register {
+
+//@ fn impl X86Register :: fn set
+//@ spec
+    requires
+        self.rec_ok(), expr_wf(value),
+        old(block).block_wf(), old(block).next_instruction_index < usize::MAX,
+    ensures
+        /*@wf*/ final(block).block_wf(),
+        /*@no_sort_error*/ expr_bits(value) == self.bits ==> r is Ok,
+        /*@effect_full*/ (expr_bits(value) == self.bits && r is Ok && self.capstone_reg == self.full_reg) ==> set_effect(*self, value, *old(block), *final(block)),
+        /*@effect_low*/ (expr_bits(value) == self.bits && r is Ok && self.capstone_reg != self.full_reg && self.offset == 0 && self.bits < 32) ==> set_effect(*self, value, *old(block), *final(block)),
+        /*@effect_zext32*/ (expr_bits(value) == self.bits && r is Ok && self.capstone_reg != self.full_reg && self.offset == 0 && self.bits >= 32) ==> set_effect(*self, value, *old(block), *final(block)),
+        /*@effect_high*/ (expr_bits(value) == self.bits && r is Ok && self.capstone_reg != self.full_reg && self.offset != 0) ==> set_effect(*self, value, *old(block), *final(block)),
+        /*@err_frame*/ r is Err ==> *final(block) == *old(block),
+    decreases (if self.capstone_reg == self.full_reg { 0nat } else { 1nat }),
+//@ enter
+    let ghost value0 = value;
+    proof {
+        broadcast use crate::strmap::axiom_into_string_str;
+        lemma_full_rec_ok(*self);
+        lemma_expr_wf_bits(value);
+        let f = self.full_rec();
+        lemma_lt_pow2(f.bits as nat);
+        lemma_small_mod(self.offset as nat, pow2(f.bits as nat));
+        if expr_bits(value) == self.bits {
+            if self.capstone_reg == self.full_reg {
+                assert forall|env: Env| env_sorted(env) implies #[trigger] write_ok(*self, value, value, env) by {
+                    lemma_write_full(*self, value, env);
+                }
+            } else if self.offset == 0 && self.bits == 32 && f.bits == 64 {
+                assert forall|env: Env| env_sorted(env) implies #[trigger] write_ok(*self, value, Expression::Zext(f.bits, Box::new(value)), env) by {
+                    lemma_write_zext(*self, value, env);
+                }
+            }
+        }
+    }
+//@ before 0 `let mask`
+    proof { lemma_ones_shl(self.bits as u64); }
+//@ before 0 `full_reg.set(block, expr)`
+    proof {
+        let f = self.full_rec();
+        let ef = lhs_of(lhs_of(expr));
+        let cm = rhs_of(lhs_of(expr))->Constant_0;
+        lemma_pow2_mono(self.bits as nat, f.bits as nat);
+        lemma_pow2_pos(self.bits as nat);
+        lemma_trim_top(pow2(self.bits as nat), f.bits as nat);
+        assert(expr_wf(Expression::Constant(cm)));
+        assert(expr_wf(lhs_of(expr)));
+        assert(expr_wf(rhs_of(expr)));
+        assert(expr_wf(expr) && expr_bits(expr) == f.bits);
+        if expr_bits(value0) == self.bits {
+            assert(expr == low_src(ef, cm, f.bits, value0));
+            // (the premises on the width and on the mask constant keep a wrong branch condition / mask from failing HERE: they then fail the named postconditions effect_low / effect_zext32)
+            assert forall|env: Env| (env_sorted(env) && self.bits < 32 && cm.value@ == pow2(f.bits as nat) - pow2(self.bits as nat)) implies #[trigger] write_ok(*self, value0, expr, env) by {
+                lemma_write_low(*self, ef, cm, value0, env);
+            }
+        }
+    }
+//@ before 0 `full_reg.set(block, Expr::zext(`
+    proof {
+        let f = self.full_rec();
+        assert(expr_bits(value0) == self.bits ==> expr_wf(Expression::Zext(f.bits, Box::new(value0))));
+    }
+//@ before 1 `let mask`
+    proof { lemma_range_mask(self.bits as u64, self.offset as u64); }
+//@ before 1 `full_reg.set(block, expr)`
+    proof {
+        let f = self.full_rec();
+        let ef = lhs_of(lhs_of(expr));
+        let cm = rhs_of(lhs_of(expr))->Constant_0;
+        let co = rhs_of(rhs_of(expr))->Constant_0;
+        lemma_hole_bound(self.offset as nat, self.bits as nat, f.bits as nat);
+        lemma_trim_top((1 + (pow2(self.bits as nat) - 1) * pow2(self.offset as nat)) as nat, f.bits as nat);
+        assert(expr_wf(Expression::Constant(cm)));
+        assert(expr_wf(Expression::Constant(co)));
+        assert(expr_wf(lhs_of(expr)));
+        assert(expr_wf(lhs_of(rhs_of(expr))));
+        assert(expr_wf(rhs_of(expr)));
+        assert(expr_wf(expr) && expr_bits(expr) == f.bits);
+        if expr_bits(value0) == self.bits {
+            assert(expr == high_src(ef, cm, f.bits, value0, co));
+            // (the premise on the mask constant keeps a wrong mask from failing HERE: it then fails the named postcondition effect_high)
+            assert forall|env: Env| (env_sorted(env) && co.value@ == self.offset && cm.value@ == pow2(f.bits as nat) - 1 - (pow2(self.bits as nat) - 1) * pow2(self.offset as nat))
+                implies #[trigger] write_ok(*self, value0, expr, env) by {
+                lemma_write_high(*self, ef, cm, value0, co, env);
+            }
+        }
+    }
+//@ end
+
+} // impl X86Register
+
+// ---- translator::x86::mode::Mode: the accessors that do not look at capstone operands ---------------------------------
+impl Mode {
+//@ source lib/translator/x86/mode.rs
+//@ fn impl Mode :: fn get_register
+//@ spec
+    ensures
+        /*@found*/ lookup(table_of(*self), capstone_id) matches Some(k) ==> (r matches Ok(x) && *x == table_of(*self)[k]),
+        /*@missing*/ lookup(table_of(*self), capstone_id) is None ==> (r matches Err(e) && e is Custom),
+        /*@inv*/ r matches Ok(x) ==> x.rec_ok() && x.mode == *self && x.capstone_reg == capstone_id,
+//@ end
+
+//@ fn impl Mode :: fn bits
+//@ spec
+    ensures /*@width*/ r == (match *self { Mode::X86 => 32usize, Mode::Amd64 => 64usize }),
+//@ end
+
+//@ fn impl Mode :: fn sp
+//@ spec
+    ensures /*@sp*/ r == (match *self { Mode::X86 => named_scalar("esp"@, 32), Mode::Amd64 => named_scalar("rsp"@, 64) }),
+//@ enter
+    proof { broadcast use crate::strmap::axiom_into_string_str; }
+//@ end
 }
